@@ -341,10 +341,8 @@ func typeAssert(n *node, withResult, withOk bool) {
 		n.exec = func(f *frame) bltn {
 			valf := value(f)
 			v, ok := valf.Interface().(valueInterface)
-			if setStatus {
-				defer func() {
-					value1(f).SetBool(ok)
-				}()
+			if withOk {
+				defer func() { assertStatus(f, value0, value1, setStatus, ok) }()
 			}
 			if !ok {
 				if !withOk {
@@ -414,10 +412,8 @@ func typeAssert(n *node, withResult, withOk bool) {
 			var leftType reflect.Type
 			v := value(f)
 			val, ok := v.Interface().(valueInterface)
-			if setStatus {
-				defer func() {
-					value1(f).SetBool(ok)
-				}()
+			if withOk {
+				defer func() { assertStatus(f, value0, value1, setStatus, ok) }()
 			}
 			if ok && val.node.typ.cat != valueT {
 				m0 := val.node.typ.methods()
@@ -477,10 +473,8 @@ func typeAssert(n *node, withResult, withOk bool) {
 	case isEmptyInterface(n.child[0].typ):
 		n.exec = func(f *frame) bltn {
 			var ok bool
-			if setStatus {
-				defer func() {
-					value1(f).SetBool(ok)
-				}()
+			if withOk {
+				defer func() { assertStatus(f, value0, value1, setStatus, ok) }()
 			}
 			val := value(f)
 			concrete := val.Interface()
@@ -515,10 +509,8 @@ func typeAssert(n *node, withResult, withOk bool) {
 		n.exec = func(f *frame) bltn {
 			v := value(f).Elem()
 			ok := v.IsValid()
-			if setStatus {
-				defer func() {
-					value1(f).SetBool(ok)
-				}()
+			if withOk {
+				defer func() { assertStatus(f, value0, value1, setStatus, ok) }()
 			}
 			if !ok {
 				if !withOk {
@@ -547,10 +539,8 @@ func typeAssert(n *node, withResult, withOk bool) {
 	default:
 		n.exec = func(f *frame) bltn {
 			v, ok := value(f).Interface().(valueInterface)
-			if setStatus {
-				defer func() {
-					value1(f).SetBool(ok)
-				}()
+			if withOk {
+				defer func() { assertStatus(f, value0, value1, setStatus, ok) }()
 			}
 			if !ok || !v.value.IsValid() {
 				ok = false
@@ -572,6 +562,18 @@ func typeAssert(n *node, withResult, withOk bool) {
 			}
 			return next
 		}
+	}
+}
+
+// assertStatus completes a two-value type assertion: it sets the status, and the result
+// to its zero value when the assertion failed.
+func assertStatus(f *frame, result, status func(*frame) reflect.Value, setStatus, ok bool) {
+	if setStatus {
+		status(f).SetBool(ok)
+	}
+	if !ok && result != nil {
+		v := result(f)
+		v.Set(reflect.Zero(v.Type()))
 	}
 }
 
